@@ -137,8 +137,13 @@ Definition prev_end (a : list entry) : Z :=
 Definition next_offset (b : list entry) : Z :=
   match b with [] => MAX64 | n :: _ => e_off n end.
 
-(* adjust_range (86-99); h = None is the null handle *)
-Definition adjust_range (s : state) (t : Z) (h : option Z) (o l : Z) : state * list ev :=
+(* adjust_range (86-100); h = None is the null handle.
+   [notify] = the line `it->cond.notify_all()` after the in-place mutation (the F20 repair,
+   repo_patches/C18-fix-adjust-range-notify.diff): the threads parked on the adjusted node
+   are made runnable so that they re-evaluate against the new range.  [notify = false] is
+   the code before the repair (kept for the theorem rl_adjust_prefix_refuted). *)
+Definition clear_wait (e : entry) : entry := mkE (e_off e) (e_len e) (e_id e) [].
+Definition adjust_range_gen (notify : bool) (s : state) (t : Z) (h : option Z) (o l : Z) : state * list ev :=
   match h with
   | None => (s, [EvRet t (-1)])                                           (* if (!h) return -1 *)
   | Some h =>
@@ -149,9 +154,12 @@ Definition adjust_range (s : state) (t : Z) (h : option Z) (o l : Z) : state * l
         if ((o <? e_off x) && (o <? prev_end a)) ||
            ((e_end x <? r1end) && (next_offset b <? r1end))
         then (s, [EvRet t (-1)])
+        else if notify
+        then (mkSt (a ++ clear_wait (set_range x o l) :: b) (nid s) (pend s) (wake_all (ready s) x), [EvRet t 0])
         else (mkSt (a ++ set_range x o l :: b) (nid s) (pend s) (ready s), [EvRet t 0])
     end
   end.
+Definition adjust_range := adjust_range_gen true.
 
 (* ---- threads ----------------------------------------------------------------- *)
 Fixpoint lookup_pend (t : Z) (l : list (Z * preq)) : option preq :=
